@@ -69,7 +69,8 @@ func init() {
 
 		// ---- the two node-annotation sources (reserved CPUs of the node reservation, exclusive system-QoS cpuset): wherever the
 		// package reads one of them, the handler of its parse error must not leave the function (the model's effReserved /
-		// effSysExcl turn an unreadable source into "protects nothing" and carry on with the other source).
+		// effSysExcl turn an unreadable source into "protects nothing" and carry on with the other source).  Counted as
+		// "leaving": a handler containing return / goto / panic / Fatal while the same function reads a source further down.
 		//   source A: `x, err := getSystemQOSExclusiveCPU(..)` followed by `if err != nil {..}` (or as the if's init statement)
 		//   source B: `s, _ := apiext.GetReservedCPUs(..)` and later in the same block `cpuset.Parse(s)` with its `err != nil` handler
 		srcHandlers, srcLeaving := 0, 0
@@ -113,6 +114,8 @@ func init() {
 				if !ok || fd.Body == nil || fd.Name.Name == "getSystemQOSExclusiveCPU" {
 					continue
 				}
+				var srcPos []token.Pos     // where this function reads a source
+				var leavingEnd []token.Pos // end of every error handler of a source that leaves the function
 				ast.Inspect(fd.Body, func(n ast.Node) bool {
 					blk, ok := n.(*ast.BlockStmt)
 					if !ok {
@@ -136,25 +139,40 @@ func init() {
 						}
 						switch v := st.(type) {
 						case *ast.AssignStmt:
-							if isSrc(v) && k+1 < len(blk.List) {
-								if ifs, ok := blk.List[k+1].(*ast.IfStmt); ok && ifs.Init == nil && errCond(ifs) {
-									srcHandlers++
-									if leaves(ifs.Body) {
-										srcLeaving++
+							if isSrc(v) {
+								srcPos = append(srcPos, v.Pos())
+								if k+1 < len(blk.List) {
+									if ifs, ok := blk.List[k+1].(*ast.IfStmt); ok && ifs.Init == nil && errCond(ifs) {
+										srcHandlers++
+										if leaves(ifs.Body) {
+											leavingEnd = append(leavingEnd, ifs.Body.End())
+										}
 									}
 								}
 							}
 						case *ast.IfStmt:
-							if v.Init != nil && isSrc(v.Init) && errCond(v) {
-								srcHandlers++
-								if leaves(v.Body) {
-									srcLeaving++
+							if v.Init != nil && isSrc(v.Init) {
+								srcPos = append(srcPos, v.Pos())
+								if errCond(v) {
+									srcHandlers++
+									if leaves(v.Body) {
+										leavingEnd = append(leavingEnd, v.Body.End())
+									}
 								}
 							}
 						}
 					}
 					return true
 				})
+				// a handler that leaves is harmful when the function reads another source AFTER it (that source is then skipped)
+				for _, end := range leavingEnd {
+					for _, p := range srcPos {
+						if p > end {
+							srcLeaving++
+							break
+						}
+					}
+				}
 			}
 		}
 		fmt.Fprintf(&e.out, "def nodeSourceErrorHandlers : Nat := %d\n", srcHandlers)
